@@ -393,7 +393,7 @@ MA('C01', 'pspace lincomb swaps operands', PSP, 'ProductSpace._lincomb',
 MA('C01', 'broadcast applies add always', PSP,
    '_broadcast_arithmetic._broadcast_arithmetic_impl',
    'res = getattr(xi, op)(other)', "res = getattr(xi, '__add__')(other)",
-   '_broadcast_arithmetic')
+   'ProductSpaceElement.__sub__')
 MA('C01', 'rsub scalar sign', SPC, 'LinearSpaceElement.__rsub__',
    'return self.space.lincomb(1, tmp, -1, self, out=tmp)',
    'return self.space.lincomb(1, tmp, 1, self, out=tmp)',
@@ -1889,3 +1889,10 @@ MA('C03', 'operator + vector adds the vector in place to the out-of-place result
    'return self.operator(x) + self.vector',
    'out = self.operator(x)\nout += self.vector\nreturn out',
    'RealPart[R] + vector')
+MA('C01', 'in-place broadcasting reads the part it has just updated',
+   'odl/space/pspace.py', '_broadcast_arithmetic._broadcast_arithmetic_impl',
+   'other = other.copy()', 'pass', 'operand: part 0')
+MA('C01', 'broadcasting applies the reflected dunder to the parts',
+   'odl/space/pspace.py', '_broadcast_arithmetic._broadcast_arithmetic_impl',
+   'res = getattr(xi, op)(other)',
+   "res = getattr(xi, op.replace('__r', '__'))(other)", '__rsub__')
